@@ -392,7 +392,11 @@ def run_site(c):
         nrt = main._osc_interface
         if not isinstance(nrt, osci.OscNrtInterface):
             return {'skipped': 'no NRT interface in this process (%s)' % INIT_ERROR}
-        nrt._osc_score = osci.OscScore()
+        in_routine = c.get('ctx') == 'routine'
+        if in_routine:
+            main.reset()            # a fresh life: time 0, empty scheduler, new score
+        else:
+            nrt._osc_score = osci.OscScore()
         score = nrt._osc_score
         addr = nad.NetAddr('127.0.0.1', 57232)
         handed = []
@@ -403,27 +407,52 @@ def run_site(c):
             d = (nrt._build_msg(st, list(e)) if isinstance(e[0], str) else nrt._build_bundle(st, list(e))).dgram
             return hashlib.sha1(d).hexdigest()[:16]
 
+        def where():
+            return {'st': main.current_tt._seconds, 'routine': main.current_tt is not main.main_tt}
+
         def log_msg(*a):
-            handed.append({'method': 'send_msg', 'n': 1, 'elems': [elem_sha(a)]})
+            handed.append(dict(where(), method='send_msg', n=1, elems=[elem_sha(a)]))
             real_msg(*a)
 
         def log_bndl(t, *e):
-            handed.append({'method': 'send_bundle', 'time': enc_tree(t), 'n': len(e), 'elems': [elem_sha(x) for x in e]})
+            handed.append(dict(where(), method='send_bundle', time=enc_tree(t), n=len(e), elems=[elem_sha(x) for x in e]))
             real_bndl(t, *e)
         addr.send_msg, addr.send_bundle = log_msg, log_bndl
+
+        def do(op):
+            if op[0] == 'clumped':
+                addr.send_clumped_bundles(dec(op[1]), *dec(op[2]))
+            elif op[0] == 'bundle':
+                addr.send_bundle(dec(op[1]), *dec(op[2]))
+            elif op[0] == 'msg':
+                addr.send_msg(*dec(op[1]))
+            elif op[0] == 'ctx':
+                with nad.BundleNetAddr(addr) as b:
+                    for e in dec(op[1]):
+                        b.send_msg(*e)
         try:
-            for op in c['ops']:
-                if op[0] == 'clumped':
-                    addr.send_clumped_bundles(dec(op[1]), *dec(op[2]))
-                elif op[0] == 'bundle':
-                    addr.send_bundle(dec(op[1]), *dec(op[2]))
-                elif op[0] == 'msg':
-                    addr.send_msg(*dec(op[1]))
-                elif op[0] == 'ctx':
-                    with nad.BundleNetAddr(addr) as b:
-                        for e in dec(op[1]):
-                            b.send_msg(*e)
-            score.finish()
+            if in_routine:
+                # the sender is a routine played on the clock: its logical time advances with ['wait', dt]
+                from sc3.base import stream as stm
+                failed = []
+
+                def body():
+                    try:
+                        for op in c['ops']:
+                            if op[0] == 'wait':
+                                yield float(op[1])
+                            else:
+                                do(op)
+                    except BaseException as e:
+                        failed.append(e)
+                stm.Routine(body).play()
+                main.process()              # runs the scheduler and finishes the score of this life
+                if failed:
+                    raise failed[0]
+            else:
+                for op in c['ops']:
+                    do(op)
+                score.finish()
             raw = bytes(score.raw)
             entries, i = [], 0
             while i < len(raw):
@@ -443,7 +472,10 @@ def run_site(c):
         except BaseException as e:
             res['error'] = [err_code(e), type(e).__name__, str(e)[:200]]
         finally:
-            nrt._osc_score = osci.OscScore()
+            if in_routine:
+                main.reset()
+            else:
+                nrt._osc_score = osci.OscScore()
         res['handed'] = handed
     elif c['kind'] == 'sendmsg':
         addr, calls = make_addr(True)
